@@ -219,6 +219,21 @@ def c13_classify(c, i):
             out.append("srclen=" + ("0" if n == 0 else "1-6" if n <= 6 else "7-9" if n <= 9 else "10-33" if n <= 33 else "34+"))
         except Exception:
             pass
+    elif c[0] == "c13.mrule":
+        out.append("mrule:" + (" ".join(i[:2]) if i else "none"))
+        try:
+            n = int(c[2]); k = 3; modes = set(); ci = False
+            for _ in range(n):
+                modes.add(("prefix", "contains", "suffix")[int(c[k])]); ci = ci or c[k + 1] == "1"
+                k += 4 + int(c[k + 3])
+            data = _unhex(c[k])
+            for md in sorted(modes): out.append("mrule:mode=" + md)
+            if ci:
+                out.append("mrule:case-insensitive")
+                low = data.decode("utf-8", "replace").lower().encode("utf-8")
+                out.append("mrule:lowering-" + ("keeps-length" if len(low) == len(data) else "shrinks" if len(low) < len(data) else "grows"))
+        except Exception:
+            pass
     elif c[0] in ("c13.utf8", "c13.tok", "c13.rename", "c13.move"):
         out.append(c[0][4:] + ":" + (i[0] if i else "none"))
         if c[0] == "c13.utf8": out.append("fields=" + c[1])
@@ -278,9 +293,9 @@ CFG = {
     "facts": [("holding-plugins-get-timeouts", fact_holding_plugins), ("five-action-results", fact_five_results)],
     "signatures": {"c13_lenient_nested_json": sig_lenient_nested_json, "c13_k8s_cutoff_splits_escape": sig_k8s_cutoff_splits_escape},
     "rule": "per plugin: the systematic configuration list (every documented option) x every value of the adversarial value list at the configured fields (chunks of 14 events; a rotating third of the list in quick) "
-            "+ root shapes/raw texts + random configurations x random sequences (quick 150x6, thorough 1200x10 per plugin) + 20/300 real-pipeline runs per plugin (c13.pipe, every fourth with the stdout output plugin); cores: exhaustive strings over {a,b} up to length 4/6 x every filter/mode/cutset/group order, "
+            "+ root shapes/raw texts + random configurations x random sequences (quick 150x6, thorough 1200x10 per plugin) + 20/120 real-pipeline runs per plugin (c13.pipe, every fourth with the stdout output plugin); cores: exhaustive strings over {a,b} up to length 4/6 x every filter/mode/cutset/group order, "
             "all strings over {\\,u,x,0,d,8} up to length 5/6 for the utf8 scanner, random chains; distinct = distinct case line; non-trivial = at least one event was really processed (cores: a value was produced)",
-    "corr_name": "c13.pipe: the same inside a real pipeline (processor.doActions/countEvent, Propagate, Spawn, real time-outs), no model column; modelled cores: Act.Subst.run = modify filters, Act.Utf8Bytes.convert = convert_utf8_bytes, Act.HashTok = normalizer tokenizer, Act.Fields = rename/move; c13.act has no model column (M echoes the implementation)",
+    "corr_name": "c13.pipe: the same inside a real pipeline (processor.doActions/countEvent, Propagate, Spawn, real time-outs), no model column; modelled cores: Act.Subst.run = modify filters, Act.Utf8Bytes.convert = convert_utf8_bytes, Act.HashTok = normalizer tokenizer, Act.Fields = rename/move, MatchRule.rsMatch = match rules of a mask through mask.Do (c13.mrule); c13.act has no model column (M echoes the implementation)",
     "trusted_base": [
         "un-modelled plugin bodies (16 harness-only plugins + the glue around the modelled cores): validated by the harness only",
         "insane-json (Dig/AddField/Suicide/MutateTo*/Encode/decoder leniency), regexp, bytes.Trim for non-ASCII cutsets, prometheus client, go-faster/jx, lexmachine, time.Parse/Format: exercised, not modelled",
@@ -293,6 +308,7 @@ CFG = {
         "k8s-multiline events carry the four k8s_* meta fields the k8s input always adds; events whose root is not an object are not sent to it",
         "encoding/json half of the re-parse check applies to events that were valid for encoding/json when they came in (insane-json accepts and re-emits .5, 1e, raw control bytes, unknown escapes)",
         "excluded configurations: throttle limiter_backend=redis (needs a server), decode csv invalid_line_mode=fatal and is_strict pipelines (exit is the documented behaviour)",
+        "match rules of a mask (cfg/matchrule): diffed through mask.Do against C20's Model/MatchRule.lean (c13.mrule) for configured values whose lower-case form keeps its byte length; event data carries the length-changing runes (U+212A, U+2126, U+212B, U+0130, U+1E9E shrink, U+023A grows, invalid bytes become U+FFFD)",
         "regexp oracle shape: FindAllSubmatchIndex rows have 2*(NumSubexp+1) entries, each pair is (-1,-1) or 0 <= start <= end <= len(src)",
     ],
     "chunk": 20000,
